@@ -418,6 +418,27 @@ fn lets_cases(r: &mut Rng, n: usize) -> Vec<Case> {
         }
         out.push(lets_case(&lets));
     }
+    // regression (67931d1): `let _ = e` discards, whatever names occur inside e
+    let q0 = ("q0".to_string(), LE::Lit(LV::Arr(vec![LV::I(6), LV::I(2)])));
+    let us = |e: LE| ("_".to_string(), e);
+    for (i, rest) in [
+        vec![us(LE::Acc("q0".into(), vec![LE::Lit(LV::I(0))]))],
+        vec![us(LE::Call("len".into(), vec![LE::Var("q0".into())]))],
+        vec![us(LE::Call("lenn".into(), vec![LE::Var("q0".into())]))],
+        vec![us(LE::Bin("add", Box::new(LE::Lit(LV::I(1))), Box::new(LE::Lit(LV::I(2)))))],
+        vec![us(LE::Var("q0".into()))],
+        vec![us(LE::Lit(LV::I(1))), us(LE::Acc("q0".into(), vec![LE::Lit(LV::I(1))])), ("q1".to_string(), LE::Acc("q0".into(), vec![LE::Lit(LV::I(1))]))],
+        vec![us(LE::Acc("q0".into(), vec![LE::Lit(LV::I(7))]))],
+        vec![us(LE::Bin("div", Box::new(LE::Lit(LV::I(1))), Box::new(LE::Lit(LV::I(0)))))],
+        vec![us(LE::Call("range".into(), vec![LE::Lit(LV::I(0)), LE::Call("len".into(), vec![LE::Var("q0".into())]), LE::Lit(LV::B(false))]))],
+    ].into_iter().enumerate() {
+        let mut lets = vec![q0.clone()];
+        lets.extend(rest);
+        let mut c = lets_case(&lets);
+        c.tags.push("lets:underscore-regression".into());
+        c.tags.push(format!("lets:underscore-regression:{}", i));
+        out.push(c);
+    }
     // which names a constant may take (`check_if_reserved_token`)
     for name in ["min", "max", "where", "in", "for", "as", "if", "else", "solve", "true", "false", "Graph", "avg", "abs", "all", "any", "xor", "sum", "prod", "edges", "E", "len", "nodes", "V",
         "neigh_edges", "N", "neigh_edges_of", "N_of", "enumerate", "enum", "range", "zip", "difference", "union", "intersection", "lenn", "Min", "graph", "sumx", "PI", "Infinity", "e", "n_of", "Sum", "ranges"] {
